@@ -128,6 +128,29 @@ def gen_C19(tier, seed):
     n = 80 if tier == 'quick' else 1200
     for i in range(n):
         progs.append(data_scenario('C19', i, rng, tier, window=(i % 2 == 0)).build())
+    # float data with NaN / infinities under an integer cast (the written value is not judged here; the caller's arrays are)
+    for i in range(12 if tier == 'quick' else 120):
+        p = Prog(f'C19-nancast-{i}', {'kind': 'nancast'})
+        lf, _ = base_lf(p)
+        src = ['float64', 'float32'][i % 2]
+        a = np.array([1.5, float('nan'), 3.0, float('inf'), -2.0, float('nan'), 7.0], dtype=src)
+        b = np.array([[1.0, float('nan')], [2.0, 3.0], [float('nan'), 4.0], [5.0, 6.0], [7.0, 8.0], [9.0, 1.0], [float('-inf'), 0.0]], dtype=src)
+        lay = ['C', 'strided', 'view', 'F'][(i // 2) % 4]
+        route = ['inline', 'dict', 'struct', 'h5'][(i // 3) % 4]
+        cast = ['int32', 'int16', 'uint8'][i % 3]
+        ia, ib = p.array(a, lay), p.array(b, lay if route != 'struct' else 'C')
+        if route == 'inline':
+            ca = p.channel(lf, 'A', data=ia, cast=cast)
+            cb = p.channel(lf, 'B', data=ib, cast=cast)
+            arrs = {}
+        else:
+            ca = p.channel(lf, 'A', cast=cast)
+            cb = p.channel(lf, 'B', cast=cast)
+            arrs = {ca: ia, cb: ib}
+        p.frame(lf, 'FR', [ca, cb])
+        kw = {'from': 1, 'to': 6} if i % 4 == 3 else {}
+        p.write(1, route='none' if route == 'inline' else route, data_arrays=arrs, in_chunk=[None, 2][i % 2], valid=False, either=True, **kw)
+        progs.append(p.build())
     # failing writes: the caller's data must survive those too
     for i in range(10 if tier == 'quick' else 100):
         p = Prog(f'C19-fail-{i}', {'kind': 'data-fail', 'fringe': True})
@@ -611,6 +634,7 @@ def gen_C09(tier, seed):
                 p.nofmt(lf, refs['NO-FORMAT'][0], b'payload-' + bytes([k]))
         p.write(1, in_chunk=rng.choice([None, 1]))
         progs.append(p.build())
+    progs += header_route_programs('C09')
     return progs
 
 
@@ -666,6 +690,35 @@ def gen_C11(tier, seed):
                 p.write(fid, route='none' if route in ('inline', 'presliced') else route, data_arrays=arrs, extras=extras,
                         perm=perm, fname=f'out{fid}.dlis', **opts)
             progs.append(p.build())
+    # a cast given at creation and changed (or cleared) before the write: inline data and write-time data are cast once, to
+    # the dtype in force at the write
+    casts = [('float64', 'float32', 'float64'), ('float64', 'float32', None), ('int32', 'uint8', 'int32'), ('int32', 'uint8', None),
+             ('float64', 'int16', 'float32'), ('uint16', 'uint8', 'uint32'), ('float32', 'float64', None), ('int16', 'int8', 'int16')]
+    for i, (src, first, final) in enumerate(casts if tier == 'thorough' else rng.sample(casts, 4)):
+        p = Prog(f'C11-recast-{i}', {'kind': 'recast-inline', 'src': src, 'first': first, 'final': final})
+        vals = np.array([0.1, 300.7, -2.5, 1e10, 70000.25, 255.5]) if src.startswith('float') else np.array([1, 300, 70000 % (2 ** 15), 255, 256, 77])
+        a = vals.astype(src)
+        if first in ('int16', 'int8', 'uint8') and src.startswith('float'):
+            a = np.array([0.5, 30.7, -2.5, 100.0, 7.25, 25.5]).astype(src)        # casts numpy defines
+        if first == 'int8':
+            a = np.array([1, 100, -7, 127, -128, 77]).astype(src)
+        b = rand_array(rng, 'float64', 6)
+        for fid, route in ((1, 'inline'), (2, 'dict'), (3, 'struct')):
+            p.file(fid, vrl=256)
+            lf = p.lf(fid, lf=fid, fh_id='RECAST')
+            p.origin(lf, name='O')
+            arrs = {}
+            if route == 'inline':
+                ch = p.channel(lf, 'CH', data=a, cast=first)
+                ix = p.channel(lf, 'IX', data=b)
+            else:
+                ch = p.channel(lf, 'CH', cast=first)
+                ix = p.channel(lf, 'IX')
+                arrs = {ch: p.array(a), ix: p.array(b)}
+            p.frame(lf, 'FR', [ix, ch])
+            p.set_cast(ch, final)
+            p.write(fid, route='none' if route == 'inline' else route, data_arrays=arrs, fname=f'o{fid}.dlis')
+        progs.append(p.build())
     # inline data and write-time data mixed (write-time data take precedence), two frames of different lengths, one window
     for i in range(8 if tier == 'quick' else 80):
         p = Prog(f'C11-mixed-{i}', {'kind': 'mixed'})
@@ -781,6 +834,26 @@ def gen_C13(tier, seed):
 # ----------------------------------------------------------------------------------------------------------------------
 # C18: isolation of frames and logical files
 # ----------------------------------------------------------------------------------------------------------------------
+def header_route_programs(pid):
+    progs = []
+    for i, mode in enumerate(['ready', 'shared_set', 'same_item', 'ready', 'shared_set']):
+        p = Prog(f'{pid}-headers-{i}', {'kind': 'headers', 'mode': mode, 'fringe': mode == 'shared_set'})
+        p.file(1)
+        nlf = 2 + i // 3
+        for k in range(nlf):
+            extra = {} if k == 0 or mode == 'ready' else {'header_of': 1}
+            same = mode == 'same_item' and k > 0
+            lf = p.lf(1, lf=k + 1, fh_id=('HEADER-0' if same else f'HEADER-{k}'), fh_seq=(1 if same else k + 1),
+                      header=('ready' if k == 0 else mode), **extra)
+            sn = f'SET-{k}'
+            p.origin(lf, name=f'O{k}', fsn=k + 1, set_name=sn)
+            c = p.channel(lf, f'CH{k}', data=np.arange(3 + k, dtype='float64'), set_name=sn)
+            p.frame(lf, f'FR{k}', [c], set_name=sn)
+        p.write(1, valid=mode != 'shared_set', either=mode == 'shared_set')
+        progs.append(p.build())
+    return progs
+
+
 def gen_C18(tier, seed):
     rng = rng_for('C18', tier, seed)
     progs = []
@@ -848,6 +921,24 @@ def gen_C18(tier, seed):
         p.meta['setmode'] = setmode
         p.meta['nlf'] = nlf
         p.meta['inline'] = inline
+        progs.append(p.build())
+    # ready-made file headers (the route the repository's tests use): own sets, one header set shared by two logical files
+    # (rejected, or each file still opens with its own single header), the very same header item for two logical files
+    progs += header_route_programs('C18')
+    for i, mode in enumerate([]):
+        p = Prog(f'C18-headers-{i}', {'kind': 'headers', 'mode': mode, 'fringe': mode == 'shared_set'})
+        p.file(1)
+        nlf = 2 + i // 3
+        for k in range(nlf):
+            extra = {} if k == 0 or mode == 'ready' else {'header_of': 1}
+            same = mode == 'same_item' and k > 0
+            lf = p.lf(1, lf=k + 1, fh_id=('HEADER-0' if same else f'HEADER-{k}'), fh_seq=(1 if same else k + 1),
+                      header=('ready' if k == 0 else mode), **extra)
+            sn = f'SET-{k}'
+            p.origin(lf, name=f'O{k}', fsn=k + 1, set_name=sn)
+            c = p.channel(lf, f'CH{k}', data=np.arange(3 + k, dtype='float64'), set_name=sn)
+            p.frame(lf, f'FR{k}', [c], set_name=sn)
+        p.write(1, valid=mode != 'shared_set', either=mode == 'shared_set')
         progs.append(p.build())
     # one channel set per frame, the same channel names in each (distinguished by their origins): every frame has its own rows
     for i in range(6 if tier == 'quick' else 40):
